@@ -1555,6 +1555,26 @@ func (c *Ctx) isCanonicalRef(fi *core.FuncInfo, ref ast.Expr, site *ast.CallExpr
 			}
 		}
 	}
+	// (b') guarded directly: the write is dominated by path.Dir(<ref>.String()) == "#/definitions" on the very
+	// reference that is written (no flag in between)
+	for _, cd := range c.conds(fi, site) {
+		if cd.Kind != core.CondBool || cd.Neg {
+			continue
+		}
+		be, isBin := core.Unparen(cd.Expr).(*ast.BinaryExpr)
+		if !isBin || !c.isTopLevelTest(fi, be, 0) {
+			continue
+		}
+		for _, side := range []ast.Expr{be.X, be.Y} {
+			dir, isCall := core.Unparen(side).(*ast.CallExpr)
+			if !isCall || len(dir.Args) != 1 {
+				continue
+			}
+			if recv, _ := c.refStringSource(fi, dir.Args[0]); recv != nil && sameExpr(recv, ref) && !c.mayChangeBetween(fi, ref, cd.Expr.Pos(), site.Pos()) {
+				return true, "proven top-level by the dominating test path.Dir(ref) == '#/definitions' on the reference written"
+			}
+		}
+	}
 	// (c) the reference already held at this key, with a prefix (the document part) stripped and nothing else:
 	// spec.MustCreateRef(strings.TrimPrefix(<w>.String(), X)) at the key k of `for k, w := range <index of $refs>`
 	if c.isStrippedSameRef(fi, ref, site) || c.isStrippedCollectedRef(fi, ref, site) || c.isStrippedRecordedRef(fi, ref, site) {
